@@ -447,7 +447,7 @@ def _end_to_end(res, rng, thorough):
         if wit is not None:      # fixed witness of the frame/relabel findings (harness/corpus/c14_witnesses.json)
             Aw = Rotation.from_quat(np.array(wit["grains_quat_xyzw"], float)).as_matrix()
             Qw = Rotation.from_quat(np.array(wit["frame_rotation_quat_xyzw"], float)).as_matrix()
-            Rw = np.array([Rotation.from_quat(rot_ops[k]).as_matrix() @ Aw[g] for g, k in enumerate(wit["relabel_op_index_per_grain"])])
+            Rw = np.array([Rotation.from_quat(rot_ops[k % len(rot_ops)]).as_matrix() @ Aw[g] for g, k in enumerate(wit["relabel_op_index_per_grain"])])
             cases += [("witness:base", Aw), ("witness:perm", Aw[::-1]), ("witness:frame", Aw @ Qw.T), ("witness:relabel", Rw)]
         if name in _WITNESSES.get("two_grains_nan", {}):
             cases.append(("two_grains_witness", Rotation.from_quat(np.array(_WITNESSES["two_grains_nan"][name], float)).as_matrix()))
